@@ -159,4 +159,39 @@ def check_C10(ctx):
                   assumptions=TRUSTED)
 
 
-CHECKS = {"C11": check_C11, "C09": check_C09, "C16": check_C16, "C17": check_C17, "C15": check_C15, "C10": check_C10}
+# --------------------------------------------------------------------------- C12
+
+def check_C12(ctx):
+    n = 3 if ctx.quick else 4
+    cases, _ = ctx.tlc_mc("MC_C12", mc_cfg({"N": n}, ["Terminates", "OutputLaw", "ForloopRestored", "CaptureLaw", "EmitCase"], props=["CaptureSilent"]),
+                          timeout=1800)
+    ctx.validate(ctx.run_cases(cases))
+    if not ctx.quick:
+        ctx.validate(ctx.run_cases(ctx.gen("prog", 20000)))
+        ctx.exhaustive = False
+    return finish(ctx, rule="every program of <= %d statements over the 9-statement pool of MC_C12 (plus its capture-wrapped "
+                            "twin), explored step by step by TLC against a declarative store semantics and the capture law, "
+                            "rendered by the implementation and trace-validated" % n +
+                            ("" if ctx.quick else "; plus 20000 seeded random programs (assign/capture/loops/conditionals)"),
+                  assumptions=TRUSTED)
+
+
+# --------------------------------------------------------------------------- C08
+
+C08_LAWS = ["IndexLaw", "SizeFirstLast", "MapSizeFallback", "NilPropagates", "StrictOnlyFinal", "PipelineIsSequential",
+            "BadIsError"]
+
+
+def check_C08(ctx):
+    d = 2 if ctx.quick else 3
+    cases, _ = ctx.tlc_mc("MC_C08", mc_cfg({"D": d}, C08_LAWS + ["EmitCase"]), timeout=1800)
+    ctx.validate(ctx.run_cases(cases))
+    return finish(ctx, rule="every case of the families index (length 0..5 x 23 index values x literal/variable), look (12 bases x "
+                            "18 paths x strict), pipe (chains <= %d of 13 steps x 5 receivers, direct and assign-decomposed), bad "
+                            "(unknown filter, too many arguments for each of 43 filters), lit, space (8 programs x 6 spacings x "
+                            "tight) of MC_C08; TLC checks the lookup/pipeline laws on the reference, every case is rendered by the "
+                            "implementation and trace-validated" % d,
+                  assumptions=TRUSTED)
+
+
+CHECKS = {"C11": check_C11, "C09": check_C09, "C16": check_C16, "C17": check_C17, "C15": check_C15, "C10": check_C10, "C12": check_C12, "C08": check_C08}
